@@ -21,15 +21,16 @@ LEVEL = 'exploration'
 RULE = ('one real daemon per case with 1-3 managed sockets (inet on port 0, unix path, optionally one so_reuseport '
         'socket) and 2-3 watchers referring to them through $(circus.sockets.NAME) / ((circus.sockets.NAME)) in cmd '
         'or args, plus one watcher without use_sockets; 6 (quick) / 10 (thorough) generations driven by external '
-        'SIGKILL of all workers, restart, reload, sequential reload, incr, decr and reloadconfig of the unchanged '
-        'file. non-trivial = a generation in which at least one new worker was inspected; distinct = (socket set, '
+        'SIGKILL of all workers, restart, reload, sequential reload, incr, decr, reloadconfig of the unchanged '
+        'file and reloadconfig after editing an option of one watcher section (the watcher is re-created). non-trivial = a generation in which at least one new worker was inspected; distinct = (socket set, '
         'reference syntax, action sequence)')
 ASSUMPTIONS = ['so_reuseport sockets are bound per worker by design: only "a listening socket at that descriptor" is '
                'checked for them', 'inode identity is read from /proc/<pid>/fd of the daemon and of each worker']
 BUDGET = {'quick': 400, 'thorough': 2400}
 MAX_SHARDS = 8
 CASE_TIMEOUT = 200
-ACTIONS = ['extkill', 'restart', 'reload', 'reloadseq', 'incr', 'decr', 'reloadconfig', 'extkill']
+ACTIONS = ['extkill', 'restart', 'reload', 'reloadseq', 'incr', 'decr', 'reloadconfig', 'extkill', 'reloadconfig-edit',
+           'reloadconfig-edit']
 
 
 def plan(tier, seed):
@@ -228,6 +229,17 @@ def _case(d, conf, actions, rnd, res):
             d.call('decr', name=wn, waiting=True, timeout=15)
         elif act == 'reloadconfig':
             d.call('reloadconfig', waiting=True, timeout=15)
+        elif act == 'reloadconfig-edit':
+            # edit that watcher's section (another option than numprocesses): it is re-created by the reload
+            txt = open(d.ini_path).read()
+            head, sep, tail = txt.partition('[watcher:%s]' % wn)
+            if 'graceful_timeout = 1\n' in tail.split('[watcher:', 1)[0] or 'graceful_timeout = 1\n' in tail[:tail.find('\n\n') + 2]:
+                tail = tail.replace('graceful_timeout = 1\n', 'graceful_timeout = 2\n', 1)
+            else:
+                tail = tail.replace('graceful_timeout = 2\n', 'graceful_timeout = 1\n', 1)
+            with open(d.ini_path, 'w') as f:
+                f.write(head + sep + tail)
+            d.call('reloadconfig', waiting=True, timeout=20)
         time.sleep(0.4)
         n = inspect('generation %d after %s %s' % (g, act, wn))
         if n:
